@@ -184,24 +184,56 @@ def mismatch_confs():
     return out
 
 
+A2 = '192.168.0.11'
+
+
+def odd_situations():
+    """(label, confs, addrs, script): situations in which the daemon has something unusual to report"""
+    out = []
+    # a peer that is configured, but for another of the daemon's addresses: IKE_SA_INIT arrives on the wrong one, and the
+    # kernel reports an ACQUIRE for that address pair
+    c = S.base_confs()
+    c['B']['conn_ba']['peer_addr'] = A2
+    addrs = {'A': [S.IP_A, A2], 'B': [S.IP_B]}
+    import ipaddress
+    a2, b = ipaddress.ip_address(A2), ipaddress.ip_address(S.IP_B)
+    acq = K.enc_acquire(a2, b, K.enc_selector(a2, b, 0, 0, 6, 32, 32), 9)
+    out.append(('peer-on-other-local-address', c, addrs, [('acquire', 'B', 0, 0), 'drain', ('kevent', 'A', acq), 'drain']))
+    # the PRF changes across an IKE_SA rekey (opposite orders of preference, the original responder rekeys), twice
+    for x, y in (('sha256', 'sha512'), ('sha1', 'sha256')):
+        c = S.base_confs(a_over={'prf': [x, y]}, b_over={'prf': [y, x]})
+        out.append(('prf-changes-at-rekey:%s-%s' % (x, y), c, None,
+                    [('acquire', 'A', 0, 0), 'drain', ('due', 'B', 0, 'rekey_ike'), 'drain', ('acquire', 'A', 0, 0), 'drain',
+                     ('due', 'A', -1, 'rekey_ike'), 'drain']))
+    return out
+
+
 def run_handshakes():
     n = 0
     viol = []
-    for label, confs in mismatch_confs():
+    cases = [(label, confs, None, [('acquire', 'A', 0, 0), 'drain']) for label, confs in mismatch_confs()] + odd_situations()
+    for label, confs, addrs, script in cases:
         note_conf(confs)
-        w = S.new_world(confs)
-        hist = [('acquire', 'A', 0, 0)]
-        w.step(hist[0])
-        steps = 0
-        while True:
+        w = S.new_world(confs, addrs)
+
+        def do(ev):
+            nonlocal n
             pre = w.fork()
-            for v in m_log(pre, w.history[-1], w):
-                viol.append((v[0], '%s:%s' % (label, v[1]), v[2], list(w.history), label))
+            w.step(ev)
             n += 1
-            if not w.net or steps > 20:
-                break
-            steps += 1
-            w.step(('deliver', w.net[0].id))
+            for v in m_log(pre, ev, w):
+                viol.append((v[0], '%s:%s' % (label, v[1]), v[2], list(w.history), label))
+        for item in script:
+            if item == 'drain':
+                steps = 0
+                while w.net and steps < 30:
+                    steps += 1
+                    do(('deliver', w.net[0].id))
+            else:
+                if item[0] == 'due' and item[2] == -1:
+                    sas = w.endpoints[item[1]].controller.ike_sas
+                    item = ('due', item[1], len(sas) - 1, item[3])
+                do(item)
     return n, viol
 
 
@@ -233,9 +265,11 @@ def replay(path):
     sc = doc['scenario']
     res = []
     if 'handshake' in sc:
-        confs = dict(mismatch_confs())[sc['handshake']]
+        table = {label: (confs, None) for label, confs in mismatch_confs()}
+        table.update({label: (confs, addrs) for label, confs, addrs, _ in odd_situations()})
+        confs, addrs = table[sc['handshake']]
         note_conf(confs)
-        w = S.new_world(confs)
+        w = S.new_world(confs, addrs)
         for ev in doc['history']:
             pre = w.fork()
             w.step(ev)
